@@ -71,20 +71,24 @@ def run(rep, tier, seed, replay=None):
     for idx, counts, desc, b in worse[:3]:
         rep.add_violation('chain %s: leaf measure calls %s, worse than the recorded finding %s' % (desc, counts, b), {'idx': int(idx), 'cmd': 'vh c16 typical 0 %s 1' % idx})
     # ---- alternating chains (levels alternate between two variants of one container style; a definite cross available space far
-    # above every max-size): same baseline semantics as the typical corpus
-    abase = json.load(open(os.path.join(ROOT, 'corpus', 'C16-alternating-baseline.json')))['failing']
-    rc, out = vh(binp, ['c16', 'alternating', 0, 0, 216], timeout=300)
-    if 'DONE' not in out:
-        rep.add_broken('search', 'vh c16 alternating', out[-600:])
-    else:
+    # above every max-size) and the enum sweep (one container kind per chain, every combination of the enum-valued properties that
+    # decide which child queries are issued: grid auto-flow x align-items x justify-items, flex direction x align-items x wrap):
+    # same baseline semantics as the typical corpus
+    for fam, nfam in (('alternating', 216), ('enumsweep', 336)):
+        abase = json.load(open(os.path.join(ROOT, 'corpus', 'C16-%s-baseline.json' % fam)))['failing']
+        rc, out = vh(binp, ['c16', fam, 0, 0, nfam], timeout=300)
+        if 'DONE' not in out:
+            rep.add_broken('search', 'vh c16 %s' % fam, out[-600:])
+            continue
         anow = {}
         for l in out.split('\n'):
-            m = re.match(r'FAIL (\d+) alternating counts=([\d,]+) (.*)', l)
+            m = re.match(r'FAIL (\d+) %s counts=([\d,]+) (.*)' % fam, l)
             if m:
                 anow[m.group(1)] = ([int(x) for x in m.group(2).split(',')], m.group(3))
-        rep.cov['alternating_chain_cases'] = 216
-        rep.cov['alternating_failing_now'] = len(anow)
-        rep.cov['alternating_failing_baseline'] = len(abase)
+        rep.cov['%s_chain_cases' % fam] = nfam
+        rep.cov['%s_failing_now' % fam] = len(anow)
+        rep.cov['%s_failing_baseline' % fam] = len(abase)
+        rep.cov['evaluations'] = rep.cov.get('evaluations', 0) + nfam
         nrep = 0
         for idx, (counts, desc) in sorted(anow.items(), key=lambda kv: int(kv[0])):
             b = abase.get(idx)
@@ -95,7 +99,7 @@ def run(rep, tier, seed, replay=None):
             else:
                 continue
             if nrep < 3:
-                rep.add_violation(what, {'idx': int(idx), 'cmd': 'vh c16 alternating 0 %s 1' % idx})
+                rep.add_violation(what, {'idx': int(idx), 'cmd': 'vh c16 %s 0 %s 1' % (fam, idx)})
             nrep += 1
     # random fresh trees: 64 x node count
     n = 600 if tier == 'quick' else 6000
